@@ -24,6 +24,10 @@ def gen_case(rng, big=False):
     rng.shuffle(pool)
     nlab = rng.randint(5, 6) if big else rng.randint(3, 5)
     labels = pool[:nlab]
+    if rng.random() < 0.2:
+        # labels that ARE the integers 0..n-1, met in another order (the mapping is a permutation, not the identity)
+        labels = list(range(nlab))
+        rng.shuffle(labels)
     terms = {}
     hi = rng.randint(3, 8) if big else rng.randint(1, 2)
     maxdeg = min(nlab, 5 if big else 4)
@@ -44,13 +48,20 @@ def gen_case(rng, big=False):
         tgt = rng.choice(TARGETS)
     deg = tgt[2] if tgt[2] is not None else rng.choice([2, 3])
     lam_mode = rng.choice(["default", "default", "const_big", "const_small", "abs", "absplus"])
+    scale = 0
+    if not big and rng.random() < 0.12:
+        # real coefficients far below 1: the whole model (and a constant penalty) scaled by 2^-40, exact in binary floating
+        # point; the penalty must then be one that scales with the model
+        scale = -40
+        lam_mode = rng.choice(["abs", "const_big"])
+        den = 1
     pairs = rng.choice(["none", "none", "present", "unknown"])
     # what happened to the object before the judged conversion (the statement covers every model in refreshed state,
     # however it got there): nothing / another conversion / conversion then a new enumeration / conversion, edit, refresh
     history = rng.choice(["fresh", "fresh", "fresh", "converted", "remapped", "edited"])
     hist = {"kind": history, "first": rng.choice(["qubo", "quso", "pubo", "puso"]), "perm_seed": rng.randint(0, 10 ** 6)}
     return {"src": src, "labels": labels, "terms": terms, "den": den, "target": tgt[0], "spin_tgt": tgt[1], "deg": deg,
-            "expect_type": tgt[3], "lam_mode": lam_mode, "pairs": pairs, "history": hist}
+            "expect_type": tgt[3], "lam_mode": lam_mode, "pairs": pairs, "history": hist, "scale": scale}
 
 
 def run_case(case, cid, want_cert):
@@ -59,7 +70,10 @@ def run_case(case, cid, want_cert):
     os.environ[common.GUARD] = "1"
     cls = getattr(qv, case["src"])
     den = case["den"]
-    model = cls({k: (v / den if den != 1 else v) for k, v in case["terms"].items()})
+    from fractions import Fraction
+    sc = Fraction(2) ** case.get("scale", 0)
+    fsc = float(sc)
+    model = cls({k: ((v / den if den != 1 else v) * (fsc if sc != 1 else 1)) for k, v in case["terms"].items()})
     hist = case.get("history", {"kind": "fresh"})
     if hist["kind"] != "fresh":
         import random
@@ -81,7 +95,7 @@ def run_case(case, cid, want_cert):
                 k0 = hr.choice(ks)
                 model[k0] -= model[k0]                      # a term cancels in place
             labs = case["labels"]
-            model[tuple(hr.sample(labs, min(3, len(labs))))] += hr.choice([-2, 1, 3])
+            model[tuple(hr.sample(labs, min(3, len(labs))))] += hr.choice([-2, 1, 3]) * (fsc if sc != 1 else 1)
             model.refresh()
     spin_src = case["src"] in ("PUSO", "PCSO")
     labels = case["labels"]
@@ -92,7 +106,7 @@ def run_case(case, cid, want_cert):
     lam_val = 0
     kw = {}
     if case["lam_mode"] == "const_big":
-        kw["lam"] = 64
+        kw["lam"] = 64 * (fsc if sc != 1 else 1)
         lam_val = 64
     elif case["lam_mode"] == "const_small":
         kw["lam"] = 1
@@ -129,8 +143,8 @@ def run_case(case, cid, want_cert):
             D = getattr(model, "to_" + case["target"])(**kw)
         certs = list(_pubo._VERIF_CERTS)
         del _pubo._VERIF_CERTS[:]
-        dterms = [(tuple(k), v) for k, v in dict.items(D)]
-        mterms = [(tuple(k), v) for k, v in before.items()]
+        dterms = [(tuple(k), common.frac(v) / sc) for k, v in dict.items(D)]          # what TLC sees is the unscaled model
+        mterms = [(tuple(k), common.frac(v) / sc) for k, v in before.items()]
         fr = [common.frac(v) for _, v in dterms] + [common.frac(v) for _, v in mterms] + [common.frac(lam_val)]
         d = common.common_den(fr)
         rec["den"] = d
@@ -173,12 +187,12 @@ def run_case(case, cid, want_cert):
         rec["nvars_form"] = len(dvars)
         if want_cert and len(certs) == 1 and case["src"] in ("PUBO", "PCBO") and case["target"] in ("qubo", "pubo"):
             c0 = certs[0]
-            cd = common.common_den(fr + [common.frac(st[4]) for t in c0["terms"] for st in t["steps"]] + [common.frac(t["v"]) for t in c0["terms"]])
+            cd = common.common_den(fr + [(common.frac(st[4]) / sc) for t in c0["terms"] for st in t["steps"]] + [(common.frac(t["v"]) / sc) for t in c0["terms"]])
             cert = {"id": cid, "n": int(c0["n"]), "deg": int(c0["deg"]),
                     "M": [[[int(model.mapping[x]) for x in k], common.to_int(common.frac(v), cd)] for k, v in mterms],
                     "D": common.enc_terms_int(dterms, cd),
-                    "cert": [{"key0": [int(x) for x in t["key0"]], "v": common.to_int(common.frac(t["v"]), cd),
-                              "steps": [[int(st[0]), int(st[1]), int(st[2]), common.to_int(common.frac(st[4]), cd)] for st in t["steps"]],
+                    "cert": [{"key0": [int(x) for x in t["key0"]], "v": common.to_int((common.frac(t["v"]) / sc), cd),
+                              "steps": [[int(st[0]), int(st[1]), int(st[2]), common.to_int((common.frac(st[4]) / sc), cd)] for st in t["steps"]],
                               "key": [int(x) for x in t["key"]]} for t in c0["terms"]],
                     "expect_dominates": case["lam_mode"] != "const_small"}
     except common.Inexact as e:
